@@ -271,6 +271,9 @@ def run_contracts(ctx, contracts, registry, workloads=(), concrete_env=None, mon
         import json
 
         led = load_ledger()
+        for k in led:
+            if any(k.startswith(tid(c) + ":") for c in contracts) and k not in new_ledger:
+                print(f"LEDGER-WARNING {k} was recorded as discharged and is not discharged in this update run (dropped from the ledger)")
         led = {k: v for k, v in led.items() if not any(k.startswith(tid(c) + ":") for c in contracts)}
         led.update(new_ledger)
         LEDGER_PATH.write_text(json.dumps(dict(sorted(led.items())), indent=0) + "\n")
